@@ -255,6 +255,21 @@ def check_levels(case, acc):
             okc = Xs.shape[1] == len(labs_) and all(l.startswith(call + "[") and np.array_equal(Xs[:, j], want_of(l[len(call) + 1 : -1])) for j, l in enumerate(labs_))
             if not okc:
                 problems.append(("levels-cover-the-data", f"'0 + {call}' with {ns} ({what}) was accepted, but its columns {labs_} are not the indicators of the levels they name"))
+    # the lists of levels handed out belong to the caller: reversing them does not change how the design codes its own frame
+    for formula, dm, labs, X in built:
+        for t in dm.common.terms.values():
+            lv_out = getattr(t, "levels", None)
+            if isinstance(lv_out, list) and len(lv_out) > 1:
+                lv_out.reverse()
+        acc.calls += 1
+        try:
+            got = np.asarray(dm.common.evaluate_new_data(df).design_matrix, dtype=float)
+            if got.shape != X.shape or not np.array_equal(got, X):
+                problems.append(("coding-kept-on-new-data", f"{formula!r} built with lv={lv}: after the caller reversed the list it got from term.levels, the training frame is coded differently"))
+                break
+        except Exception as e:
+            problems.append(("coding-kept-on-new-data", f"{formula!r}: after the caller reversed the list it got from term.levels, evaluate_new_data raised {type(e).__name__}: {e}"))
+            break
     # a later frame with a level the design has not seen (mode 'silent'): the rows of seen levels keep their coding, the
     # unseen row is zero in every column of the factor
     if n > 1:
